@@ -19,8 +19,12 @@ AsSeq(f) == [k \in 1..Len(f) |-> f[k]]
 
 One == <<1>>
 WordOf(x) == Pad(x, WordLen)
-QW(m) == DivSmall(WordSpace, m)            \* W div m
-RW(m) == ModSmall(WordSpace, m)            \* W mod m
+QW0(m) == DivSmall(WordSpace, m)           \* W div m
+RW0(m) == ModSmall(WordSpace, m)           \* W mod m
+QWTable == [m \in 1..TableMax |-> QW0(m)]
+RWTable == [m \in 1..TableMax |-> RW0(m)]
+QW(m) == IF m <= TableMax THEN QWTable[m] ELSE QW0(m)
+RW(m) == IF m <= TableMax THEN RWTable[m] ELSE RW0(m)
 Top == Sub(WordSpace, One)                 \* W - 1
 MinI(a, b) == IF a < b THEN a ELSE b
 
@@ -43,30 +47,27 @@ PermWords(n, c, pat, j) == IF j > n - 1 THEN <<>>
 
 PermCase(n, c, pat) ==
   LET ws == PermWords(n, c, pat, 1)
-  IN [kind |-> "perm", n |-> n, c |-> c, pat |-> pat, words |-> ws,
-      expect |-> [pi |-> AsSeq(FY(n, c)), ret |-> 0, used |-> Len(ws)]]
-PermCaseOK(n, c, pat) ==
-  LET ws == PermWords(n, c, pat, 1)
+      p == FY(n, c)
       r == PermRun(n, ws)
-  IN IsChoiceVec(c, n) /\ r.ok /\ r.used = Len(ws) /\ r.pi = FY(n, c) /\ IsPerm(FY(n, c), n)
-     /\ \A k \in 1..Len(ws) : IsWord(ws[k])
+  IN [ok |-> /\ IsChoiceVec(c, n) /\ r.ok /\ r.used = Len(ws) /\ r.pi = p /\ IsPerm(p, n)
+             /\ \A k \in 1..Len(ws) : IsWord(ws[k]),
+      out |-> [kind |-> "perm", n |-> n, c |-> c, pat |-> pat, words |-> ws,
+               expect |-> [pi |-> AsSeq(p), ret |-> 0, used |-> Len(ws)]]]
 
 \* an empty stack needs no coin: the word on offer must stay untouched
 RotCase(n, r, pat) ==
   LET ws == IF n = 0 THEN <<WordOf(<<>>)>> ELSE DrawWords(n, r, pat % 6)
-  IN [kind |-> "rot", n |-> n, c |-> <<r>>, pat |-> pat, words |-> ws,
-      expect |-> [pi |-> AsSeq(RotPerm(n, r)), ret |-> RotRet(n, r), used |-> IF n = 0 THEN 0 ELSE Len(ws)]]
-RotCaseOK(n, r, pat) ==
-  LET ws == IF n = 0 THEN <<WordOf(<<>>)>> ELSE DrawWords(n, r, pat % 6)
       t == RotRun(n, ws)
-  IN t.ok /\ t.pi = RotPerm(n, r) /\ t.ret = RotRet(n, r) /\ t.used = (IF n = 0 THEN 0 ELSE Len(ws))
-     /\ (n > 0 => r \in 0..(n - 1) /\ IsPerm(RotPerm(n, r), n))
+      used == IF n = 0 THEN 0 ELSE Len(ws)
+  IN [ok |-> /\ t.ok /\ t.pi = RotPerm(n, r) /\ t.ret = RotRet(n, r) /\ t.used = used
+             /\ (n > 0 => r \in 0..(n - 1) /\ IsPerm(RotPerm(n, r), n)),
+      out |-> [kind |-> "rot", n |-> n, c |-> <<r>>, pat |-> pat, words |-> ws,
+               expect |-> [pi |-> AsSeq(RotPerm(n, r)), ret |-> RotRet(n, r), used |-> used]]]
 
 \* bounded sampler with an arbitrary 64-bit modulus md: the words at the edges of the accepted range
 ModClasses == {"zero", "one", "m-1", "m", "AB-1", "AB-m", "AB-m-1", "AB", "AB+1", "top", "mid", "three"}
-ModWords(md, cl) ==
-  LET t == DivMod(WordSpace, md)
-      AB == Mul(t.q, md)
+ModWords(md, t, cl) ==                \* t = DivMod(WordSpace, md)
+  LET AB == Mul(t.q, md)
       has == CASE cl = "AB-m-1" -> Less(One, t.q)
                [] cl = "AB" -> t.r # <<>>
                [] cl = "AB+1" -> Less(One, t.r)
@@ -89,58 +90,57 @@ ModWords(md, cl) ==
      ELSE IF cl = "three" THEN <<WordOf(Top), WordOf(AB), WordOf(Sub(AB, One))>>
      ELSE <<WordOf(w), WordOf(One)>>
 LvAllowed == [ss |-> <<2>>, s |-> <<1>>, w |-> <<0, -1>>]
-ModCase(md, ws, tag) ==
-  LET r == ModRun(md, ws)
-  IN [kind |-> "mod", m |-> md, cl |-> tag, words |-> ws, lvls |-> <<"ss", "s", "w">>,
-      expect |-> [val |-> r.val, used |-> r.used, lv |-> LvAllowed]]
-ModCaseOK(md, ws) ==
-  LET r == ModRun(md, ws)
-  IN /\ md = Trim(md) /\ md # <<>> /\ LessEq(md, Top) /\ r.ok /\ Less(r.val, md)
-     /\ \A k \in 1..Len(ws) : IsWord(ws[k])
-     \* the definition once more, by multiplication instead of division: the word taken is K*m + val
-     \* with K*m + m <= W, every word before it is not of that form
-     /\ LET w == ws[r.used]
-            K == DivMod(w, md).q
-        IN /\ EqNum(Add(Mul(K, md), r.val), w)
-           /\ LessEq(Add(Mul(K, md), md), WordSpace)
-     /\ \A k \in 1..(r.used - 1) : ~LessEq(Add(Mul(DivMod(ws[k], md).q, md), md), WordSpace)
+ModCase(md, t, ws, tag) ==            \* t = DivMod(WordSpace, md): AcceptBound(md) = t.q * md
+  LET r == ModRunB(md, Mul(t.q, md), ws)
+      w == ws[r.used]
+      K == DivMod(w, md).q
+  IN [ok |-> /\ md = Trim(md) /\ md # <<>> /\ LessEq(md, Top) /\ r.ok /\ Less(r.val, md)
+             /\ \A k \in 1..Len(ws) : IsWord(ws[k])
+             \* the definition once more, by multiplication instead of division: the word taken is K*m + val
+             \* with K*m + m <= W; no word before it is of that form
+             /\ EqNum(Add(Mul(K, md), r.val), w)
+             /\ LessEq(Add(Mul(K, md), md), WordSpace)
+             /\ \A k \in 1..(r.used - 1) : ~LessEq(Add(Mul(DivMod(ws[k], md).q, md), md), WordSpace),
+      out |-> [kind |-> "mod", m |-> md, cl |-> tag, words |-> ws, lvls |-> <<"ss", "s", "w">>,
+               expect |-> [val |-> r.val, used |-> r.used, lv |-> LvAllowed]]]
 
 \* residue sampler: draw = the byte string found in the coin source (most significant byte first)
+ResLv == [ss |-> <<2>>, s |-> <<1>>, w |-> <<0>>]
 ResCase(md, draw, tag) ==
-  [kind |-> "resid", m |-> md, cl |-> tag, draw |-> draw, lvls |-> <<"ss", "s", "w">>,
-   expect |-> [val |-> ResidueVal(md, draw), lens |-> <<ResidueLen(md)>>, lv |-> [ss |-> <<2>>, s |-> <<1>>, w |-> <<0>>]]]
+  LET t == DivMod(Rev(draw), md)
+  IN [ok |-> /\ md = Trim(md) /\ md # <<>> /\ Len(draw) = ResidueLen(md) /\ IsNum(draw)
+             /\ Less(t.r, md)
+             /\ EqNum(Add(Mul(t.q, md), t.r), Rev(draw))
+             /\ (Len(md) <= 2 => ResidueValS(Val(md), draw) = Val(t.r)),
+      out |-> [kind |-> "resid", m |-> md, cl |-> tag, draw |-> draw, lvls |-> <<"ss", "s", "w">>,
+               expect |-> [val |-> t.r, lens |-> <<ResidueLen(md)>>, lv |-> ResLv]]]
 \* value given as a*m + r (r = lo, or m - hi): the residue is r by the definition of mod, no division needed
-ResKValue(md, a, lo, hi) == Add(Mul(a, md), IF hi > 0 THEN Sub(md, FromInt(hi)) ELSE FromInt(lo))
-ResKDraw(md, a, lo, hi) == Rev(Pad(ResKValue(md, a, lo, hi), ResidueLen(md)))
 ResKCase(md, a, lo, hi) ==
-  [kind |-> "resid", m |-> md, cl |-> "a*m+r", draw |-> ResKDraw(md, a, lo, hi), lvls |-> <<"ss", "s", "w">>,
-   expect |-> [val |-> (IF hi > 0 THEN Sub(md, FromInt(hi)) ELSE FromInt(lo)), lens |-> <<ResidueLen(md)>>,
-               lv |-> [ss |-> <<2>>, s |-> <<1>>, w |-> <<0>>]]]
-ResKOK(md, a, lo, hi) ==
-  /\ md = Trim(md) /\ md # <<>>
-  /\ Less(IF hi > 0 THEN Sub(md, FromInt(hi)) ELSE FromInt(lo), md)
-  /\ Len(Trim(ResKValue(md, a, lo, hi))) <= ResidueLen(md)               \* fits the draw
-  /\ Less(a, Pow(ExtraBits \div 8))                                       \* a < 2^64
-ResOK(md, draw) ==
-  /\ md = Trim(md) /\ md # <<>> /\ Len(draw) = ResidueLen(md) /\ IsNum(draw)
-  /\ Less(ResidueVal(md, draw), md)
-  /\ LET t == DivMod(Rev(draw), md) IN EqNum(Add(Mul(t.q, md), t.r), Rev(draw))
-  /\ (Len(md) <= 2 => ResidueValS(Val(md), draw) = Val(ResidueVal(md, draw)))
+  LET r == IF hi > 0 THEN Sub(md, FromInt(hi)) ELSE FromInt(lo)
+      v == Add(Mul(md, a), r)
+  IN [ok |-> /\ md = Trim(md) /\ md # <<>>
+             /\ (hi > 0 => LessEq(FromInt(hi), md)) /\ Less(r, md)
+             /\ Len(v) <= ResidueLen(md)                                  \* fits the draw
+             /\ Less(a, Pow(ExtraBits \div 8)),                           \* a < 2^64
+      out |-> [kind |-> "resid", m |-> md, cl |-> "a*m+r", draw |-> Rev(Pad(v, ResidueLen(md))), lvls |-> <<"ss", "s", "w">>,
+               expect |-> [val |-> r, lens |-> <<ResidueLen(md)>>, lv |-> ResLv]]]
 
 --------------------------------------------------------------------------
 GInit == g = [t |-> "root"]
 GNext ==
   \/ /\ g.t = "root"
-     /\ \E k \in 1..Len(Reqs) : g' = [t |-> "req", k |-> k]
+     /\ \E k \in 1..Len(Reqs) :
+          g' = [t |-> "req", k |-> k,
+                dm |-> IF Reqs[k].q \in {"mod", "modw"} THEN DivMod(WordSpace, Reqs[k].m) ELSE [q |-> <<>>, r |-> <<>>]]
   \/ /\ g.t = "req"
      /\ \/ /\ Req.q = "fyall"
-           /\ \E c \in ChoiceVecs(Req.n) : g' = [t |-> "case", k |-> g.k, x |-> c]
+           /\ \E c \in ChoiceVecs(Req.n) : g' = [t |-> "case", k |-> g.k, x |-> c, dm |-> g.dm]
         \/ /\ Req.q = "rotall"
-           /\ \E r \in 0..(IF Req.n = 0 THEN 0 ELSE Req.n - 1) : g' = [t |-> "case", k |-> g.k, x |-> r]
+           /\ \E r \in 0..(IF Req.n = 0 THEN 0 ELSE Req.n - 1) : g' = [t |-> "case", k |-> g.k, x |-> r, dm |-> g.dm]
         \/ /\ Req.q = "mod"
-           /\ \E cl \in ModClasses : ModWords(Req.m, cl) # <<>> /\ g' = [t |-> "case", k |-> g.k, x |-> cl]
+           /\ \E cl \in ModClasses : ModWords(Req.m, g.dm, cl) # <<>> /\ g' = [t |-> "case", k |-> g.k, x |-> cl, dm |-> g.dm]
         \/ /\ Req.q \in {"fy", "rot", "modw", "res", "resk"}
-           /\ g' = [t |-> "case", k |-> g.k, x |-> 0]
+           /\ g' = [t |-> "case", k |-> g.k, x |-> 0, dm |-> g.dm]
 GSpec == GInit /\ [][GNext]_g
 
 CaseOf ==
@@ -148,20 +148,11 @@ CaseOf ==
     [] Req.q = "fy" -> PermCase(Req.n, Req.c, Req.pat)
     [] Req.q = "rotall" -> RotCase(Req.n, g.x, Req.pat)
     [] Req.q = "rot" -> RotCase(Req.n, Req.r, Req.pat)
-    [] Req.q = "mod" -> ModCase(Req.m, ModWords(Req.m, g.x), g.x)
-    [] Req.q = "modw" -> ModCase(Req.m, Req.ws, "given")
+    [] Req.q = "mod" -> ModCase(Req.m, g.dm, ModWords(Req.m, g.dm, g.x), g.x)
+    [] Req.q = "modw" -> ModCase(Req.m, g.dm, Req.ws, "given")
     [] Req.q = "res" -> ResCase(Req.m, Req.draw, "given")
     [] Req.q = "resk" -> ResKCase(Req.m, Req.a, Req.lo, Req.hi)
-CaseOK ==
-  CASE Req.q = "fyall" -> PermCaseOK(Req.n, g.x, Req.pat)
-    [] Req.q = "fy" -> PermCaseOK(Req.n, Req.c, Req.pat)
-    [] Req.q = "rotall" -> RotCaseOK(Req.n, g.x, Req.pat)
-    [] Req.q = "rot" -> RotCaseOK(Req.n, Req.r, Req.pat)
-    [] Req.q = "mod" -> ModCaseOK(Req.m, ModWords(Req.m, g.x))
-    [] Req.q = "modw" -> ModCaseOK(Req.m, Req.ws)
-    [] Req.q = "res" -> ResOK(Req.m, Req.draw)
-    [] Req.q = "resk" -> ResKOK(Req.m, Req.a, Req.lo, Req.hi)
-
-GenOK == g.t = "case" => CaseOK
-GenPrint == g.t = "case" => PrintT(ToJson([rq |-> g.k] @@ CaseOf))
+\* the case is printed only when the word-level run (Part II) agrees with the integer-level map (Part I) and the
+\* request lies in the specification's domain
+GenOK == g.t = "case" => LET cs == CaseOf IN cs.ok /\ PrintT(ToJson([rq |-> g.k] @@ cs.out))
 =============================================================================
